@@ -482,6 +482,12 @@ func GenCase(r *core.Rand, pr Profile) []string {
 	if pr.Rich && r.Chance(1, 25) {
 		return GenPipeCloseCase(r)
 	}
+	if (pr.Rich || pr.Tunnels) && r.Chance(1, 60) {
+		return GenHalfCloseCase(r, pr)
+	}
+	if pr.Tunnels && !pr.Faults && r.Chance(1, 400) {
+		return GenBusyCase(r, r.Pick("mitm", "shapedmitm", "tls", "plain"))
+	}
 	if pr.Rich && r.Chance(1, 250) {
 		return GenUnreadCase(r, r.Pick2(4, r.Pick2(8, 16))<<20)
 	}
@@ -750,7 +756,7 @@ func GenUnreadCase(r *core.Rand, size int) []string {
 
 // GenDownstreamCase: CONNECTs relayed to a downstream proxy and its answers (dsp.go).
 func GenDownstreamCase(r *core.Rand, pr Profile) []string {
-	ops := []string{"conn mode=seq listener=plain shutdown=0 dsp=1"}
+	ops := []string{"conn mode=seq listener=plain shutdown=0 dsp=1" + r.Pick("", " dspu=1")}
 	for i := r.Intn(2); i > 0; i-- {
 		ops = append(ops, genX(r, pr, false, false))
 	}
@@ -790,10 +796,64 @@ func GenSlowCase(r *core.Rand) []string {
 
 // tflip: which of the two TLS flavours the odd layers of the connection get (tlsid.go).
 func tflip(r *core.Rand, listener string) string {
+	out := ""
 	if (listenerTLS(listener) || strings.Contains(listener, "mitm")) && r.Bool() {
-		return " tflip=1"
+		out = " tflip=1"
 	}
-	return ""
+	// the SETTINGS of a traffic-shaping listener: a per-connection latency (0 / a few ms), bit rates
+	if strings.HasPrefix(listener, "shaped") {
+		out += r.Pick("", "", " tsl=1", " tsl=3", " tsl=5 tsb=80000000", " tsl=2 tsb=400000000", " tsb=200000000")
+	}
+	return out
+}
+
+// GenHalfCloseCase: the client half-closes after its last (bodiless) request - before the origin has
+// answered (the answer is delayed) or after it has read the response (lifecycle.go).
+func GenHalfCloseCase(r *core.Rand, pr Profile) []string {
+	listener := r.Pick("plain", "plain", "shaped")
+	if pr.Tunnels {
+		listener = r.Pick("plain", "tls", "shapedtls")
+	}
+	sec := listenerTLS(listener)
+	mode := r.Pick("seq", "seq", "pipe")
+	hc := r.Pick("before", "before", "after")
+	ops := []string{"conn mode=" + mode + " listener=" + listener + " shutdown=0 quiet=1 hc=" + hc + tflip(r, listener)}
+	n := r.Range(1, 3)
+	for i := 0; i < n; i++ {
+		lat := ""
+		if i == n-1 || mode == "pipe" {
+			lat = fmt.Sprintf(" lat=%d", r.Range(120, 300))
+		}
+		tf := r.Pick("abs", "origin")
+		kv := fmt.Sprintf("x m=%s tf=%s pv=11 ct=- hs=%d hdr=1 ohdr=1 rb=0 rf=cl rq=pass rs=pass o=ok st=%s ob=%d of=%s opv=11 oct=- gz=0%s",
+			r.Pick("GET", "GET", "HEAD", "OPTIONS"), tf, r.Range(1, 9999), r.Pick("200", "200", "404"), r.Range(1, 5000), r.Pick("cl", "ch"), lat)
+		if sec {
+			kv += " sec=1"
+		}
+		ops = append(ops, kv)
+	}
+	core.Count("lifecycle:half-close-" + hc + "-" + mode)
+	return append(ops, "end")
+}
+
+// GenBusyCase: the idle timeout is short, the connection is kept busy - every gap and every exchange
+// far below the timeout - for a multiple of it: nothing may be cut, on any kind of connection.
+func GenBusyCase(r *core.Rand, kind string) []string {
+	ops := []string{"conn mode=seq listener=" + kind + " shutdown=0 to=800 gap=300" + tflip(r, kind)}
+	sec := listenerTLS(kind)
+	if strings.Contains(kind, "mitm") {
+		ops = append(ops, "cmitm tls=1 rq=pass rs=pass")
+		sec = true
+	}
+	for i := 0; i < 7; i++ {
+		kv := fmt.Sprintf("x m=GET tf=origin pv=11 ct=- hs=%d hdr=1 ohdr=1 rb=0 rf=cl rq=pass rs=pass o=ok st=200 ob=%d of=%s opv=11 oct=- gz=0", i+1, r.Range(1, 300), r.Pick("cl", "ch"))
+		if sec {
+			kv += " sec=1"
+		}
+		ops = append(ops, kv)
+	}
+	core.Count("busy:" + kind)
+	return append(ops, "end")
 }
 
 // Nontrivial: at least two requests were served on the connection or a non-pass behaviour occurred.
